@@ -42,7 +42,10 @@ theorem skel_auth_PermissionedProxy_shape :
   "    panic(\"unknown 'perm' tag on \" + field.Name)",
   "  fn := ra.MethodByName(field.Name)",
   "  rint.Field(f).Set(reflect.MakeFunc(field.Type, func{…}))",
-  "    ctx := args[0].Interface().(context.Context)",
+  "    ctx := context.Background()",
+  "    if len(args) > 0",
+  "      if actx, ok := args[0].Interface().(context.Context); ok && actx != nil",
+  "        ctx = actx",
   "    if HasPerm(ctx, defaultPerms, requiredPerm)",
   "      return fn.Call(args)",
   "    err := xerrors.Errorf(\"missing permission to invoke '%s' (need '%s')\", field.Name, requiredPerm)",
@@ -58,7 +61,7 @@ theorem skel_auth_ServeHTTP_shape :
   "ctx := r.Context()",
   "token := r.Header.Get(\"Authorization\")",
   "if token == \"\"",
-  "  token = r.FormValue(\"token\")",
+  "  token = r.URL.Query().Get(\"token\")",
   "  if token != \"\"",
   "    token = \"Bearer \" + token",
   "if token != \"\"",
